@@ -235,6 +235,11 @@ class ExprMixin:
     def binop(self, op, a, b, st, line):
         a = self.unwrap_opt(a, st, 'lhs', line)
         b = self.unwrap_opt(b, st, 'rhs', line)
+        # opaque strings: concatenation is an uninterpreted (injective-agnostic) function
+        if isinstance(op, ast.Add) and ((isinstance(a, Opaque) and a.kind in ('str', 'fileobj_or_name')) or (isinstance(b, Opaque) and b.kind == 'str')) \
+                and isinstance(a, (Opaque, str, FStr)) and isinstance(b, (Opaque, str, FStr)):
+            f = z3.Function('str_concat', U, U, U)
+            return [ok(Opaque(f(self.as_u_term(a, st), self.as_u_term(b, st)), kind='str', label='concat'), st)]
         # strings
         if isinstance(a, (str, FStr)) or isinstance(b, (str, FStr)):
             if isinstance(op, ast.Add) and isinstance(a, (str, FStr)) and isinstance(b, (str, FStr)):
